@@ -103,7 +103,9 @@ static EbErrorType svt_dec_handle_ctor(EbDecHandle **   decHandleDblPtr,
     EbErrorType return_error = EB_ErrorNone;
 
     // Allocate Memory
-    EbDecHandle *dec_handle_ptr = (EbDecHandle *)malloc(sizeof(EbDecHandle));
+    /* zero-initialised: cur_pic_buf[], ref_frame_map[], frame_header ... are read on error paths
+     * before the first sequence/frame header has set them */
+    EbDecHandle *dec_handle_ptr = (EbDecHandle *)calloc(1, sizeof(EbDecHandle));
     *decHandleDblPtr            = dec_handle_ptr;
     if (dec_handle_ptr == (EbDecHandle *)NULL)
         return EB_ErrorInsufficientResources;
